@@ -82,6 +82,32 @@ def spec_decode(p, mv):
     return "%d.%d.%d" % (frm, to, piece)
 
 
+_RANDOM64 = None
+
+
+def spec_key(p):
+    """Polyglot key of a position by the format's definition (own table file, own piece order:
+    bp wp bn wn bb wb br wr bq wq bk wk; castle K Q k q; en-passant file; white to move)."""
+    global _RANDOM64
+    if _RANDOM64 is None:
+        _RANDOM64 = [int(l, 16) for l in open(os.path.join(VERIF, "props", "c18_random64.txt")) if l.strip() and not l.startswith("#")]
+        assert len(_RANDOM64) == 781
+    kind = {12: 0, 6: 1, 11: 2, 5: 3, 10: 4, 4: 5, 9: 6, 3: 7, 8: 8, 2: 9, 7: 10, 1: 11}
+    k = 0
+    for sq, pc in enumerate(p["board"]):
+        if pc:
+            k ^= _RANDOM64[64 * kind[pc] + sq]
+    cm = int(p["castle"])
+    for bit, off in ((1, 0), (0, 1), (3, 2), (2, 3)):       # white short, white long, black short, black long
+        if cm & (1 << bit):
+            k ^= _RANDOM64[768 + off]
+    if p["ep"] != "-1":
+        k ^= _RANDOM64[772 + (int(p["ep"]) & 7)]
+    if p["wtm"] == "1":
+        k ^= _RANDOM64[780]
+    return k
+
+
 def parse_fields(s):
     d = {}
     for fld in s.split(";"):
@@ -385,11 +411,16 @@ def run_stream(ctx, cpp, ml, tmpdir, pool, nbooks, ncalls, tag, max_fill=2500):
     return [r for rs in results for r in rs]
 
 
-def shrink_file(cpp, ml, tmpdir, data, p, ncalls, seed):
-    """Drop 16-byte entries while model and code still disagree (or the Spec still fails)."""
+def shrink_file(cpp, ml, tmpdir, data, p, ncalls, seed, need="any"):
+    """Drop 16-byte entries while the Spec still fails (need="spec") / while model and code still
+    disagree or the Spec fails (need="any")."""
     def bad(d):
         r = correspond_chunk(seed, cpp, ml, tmpdir, [(d, [p], {})], ncalls, "shrink")
-        return bool(r) and bool("fatal" in r[0] or r[0]["diff"] or r[0]["spec"])
+        if not r:
+            return False
+        if need == "spec":
+            return "fatal" not in r[0] and bool(r[0]["spec"])
+        return bool("fatal" in r[0] or r[0]["diff"] or r[0]["spec"])
     if data is None or not bad(data):
         return data
     cur = data
@@ -595,16 +626,18 @@ def confirm_extremes(ctx, cpp, tmpdir, start):
                           key=KEY_HANG + ":other")
     # int overflow of the accumulator under UBSan (book.cpp, polyglot.cpp, random.cpp recompiled with the sanitizer)
     ub = stash(tmpdir, lambda: cbuild.build_harness("book_harness", extra_flags=SAN_UB, extra_srcs=SAN_SRCS), "book_harness_ubsan")
-    rc, lines, err = run_harness(ub, "FEN %s\nFILE %s\nPROBE 1\n" % (START_FEN, paths["sum_gt_2^31"]), timeout=120)
-    out["sum_gt_2^31"] = "rc=%d %s" % (rc, err.strip().split("\n")[0][:200] if err.strip() else "")
+    rc, lines, err = run_harness(ub, "FEN %s\nFILE %s\nPROBE 1 ! 4\n" % (START_FEN, paths["sum_gt_2^31"]), timeout=120)
+    res = lines[1] if len(lines) > 1 else "no output"
+    out["sum_gt_2^31"] = "%s | %s" % (res[:60], err.strip().split("\n")[0][:200] if err.strip() else "")
     if "signed integer overflow" in err:
         ctx.count("extreme_overflow_reproduced")
         ctx.violation("signed int overflow (undefined behaviour) in the weight sum of Book::getBookMove; outside the guard of C18_weight_sum_range",
                       {"file": "32769 entries (key of the start position, weight 65535)", "bytes": 32769 * 16, "fen": START_FEN,
                        "ubsan": err.strip()[:600]}, key=KEY_OVF)
-    elif rc != 0:
-        ctx.violation("UBSan build fails on the 32769-entry file in an unexpected way", {"stderr": err[-800:], "rc": rc},
-                      key=KEY_OVF + ":other")
+    elif rc != 0 or not res.startswith("R "):
+        ctx.violation("UBSan build on the 32769-entry file: probe does not return normally (%s)" % res[:80],
+                      {"stderr": err[-800:], "rc": rc, "observed": res[:300], "file": "32769 entries (key of the start position, weight 65535)",
+                       "bytes": 32769 * 16, "fen": START_FEN}, key=KEY_OVF + ":other")
     else:
         ctx.count("extreme_overflow_not_reproduced")
     # the same UBSan build must be clean on a sum just inside the int range (32768 x 65535 = 2^31 - 32768)
@@ -739,6 +772,12 @@ def run(ctx):
         ctx.count("positions_castling_legal", sum(1 for p in pool if any(m in p["legal"] for m in ("4.6.0", "4.2.0", "60.62.0", "60.58.0")) and p["board"][4 if p["wtm"] == "1" else 60] in (1, 7)))
         ctx.count("positions_with_ep", sum(1 for p in pool if p["ep"] != "-1"))
         spec_fail, diffs, fatals = [], [], []
+        for p in pool:
+            ctx.count("hash_keys_vs_format_definition")
+            if spec_key(p) != p["keyi"]:
+                spec_fail.append({"pos": p, "data": None, "meta": {"fault": "hashkey"}, "R": None, "M": None, "diff": None,
+                                  "spec": "PolyglotBook::getHashKey = %s, polyglot format definition = %016x" % (p["key"], spec_key(p))})
+                break
         if ml:
             # (4) correspond: corpus first
             corpus = os.path.join(VERIF, "corpus", "c18.txt")
@@ -784,21 +823,22 @@ def run(ctx):
             # only after getBookMove succeeded).  Abnormal termination is recorded as an observation.
             ill = [it for it in items if "fatal" not in it and "err" not in it["R"] and
                    classify_probe(it["pos"], it["R"]) == "filtered_illegal_candidate"][:ctx.scale(80, 3000)]
-            hs = []
+            jobs = []
             for i, it in enumerate(ill):
                 path = os.path.join(tmpdir, "all-%d.bin" % i)
                 with open(path, "wb") as f:
                     f.write(it["data"])
-                hs += ["FILE " + path, "FEN " + it["pos"]["fen"], "ALL ! 2"]
-            if hs:
-                rc, hl, err = run_harness(cpp, "\n".join(hs) + "\n")
-                outs = hl[1::2]
+                jobs.append("FILE %s\nFEN %s\nALL ! 1\n" % (path, it["pos"]["fen"]))
+            if jobs:
+                with ThreadPoolExecutor(max_workers=NCPU) as ex:
+                    outs = [(hl[1] if len(hl) > 1 else "ERR no output") for _, hl, _ in ex.map(lambda j: run_harness(cpp, j, timeout=60), jobs)]
                 abnormal = [(it["pos"]["fen"], o, [m for m, _, _ in it["R"]["cands"]]) for it, o in zip(ill, outs) if not o.startswith("A ")]
                 ctx.count("getAllBookMoves_with_illegal_candidates_ok", len(outs) - len(abnormal))
                 ctx.count("getAllBookMoves_with_illegal_candidates_abnormal", len(abnormal))
                 if abnormal:
-                    ctx.notes["observation_getAllBookMoves"] = {"what": "getAllBookMoves terminated abnormally on a book with illegal candidates "
-                                                                "(outside the engine's call pattern)", "examples": abnormal[:3]}
+                    ctx.notes["observation_getAllBookMoves"] = {"what": "getAllBookMoves terminated abnormally (1 s alarm) on a book with illegal "
+                                                                "candidates; outside the engine's call pattern (ComputerPlayer calls it only "
+                                                                "after getBookMove returned a move)", "examples": abnormal[:3]}
             ctx.log("polyglot stream done: %d probes, %d disagreements, %d spec failures" % (ctx.evaluations, len(diffs), len(spec_fail)))
             run_builtin(ctx, cpp, ml, pool, ctx.scale(6, 20), diffs, spec_fail)
             run_leaf(ctx, cpp, ml, pool, diffs)
@@ -821,13 +861,17 @@ def run(ctx):
             it = spec_fail[0]
             small = it["data"]
             if ml and it.get("pos") is not None and small is not None and len(small) <= 400000:
-                small = shrink_file(cpp, ml, tmpdir, small, it["pos"], 8, 1)
-            it2 = dict(it)
-            it2["data"] = small
-            rep = item_replay(it2)
-            rep["count"] = len(spec_fail)
-            ctx.violation("book probe violates the specification: %s" % it["spec"], rep,
-                          key="file:%s;fen:%s" % (small.hex()[:4000] if small is not None else "missing", it["pos"]["fen"] if it.get("pos") else "-"))
+                small = shrink_file(cpp, ml, tmpdir, small, it["pos"], 24, 1, need="spec")
+                again = correspond_chunk(1, cpp, ml, tmpdir, [(small, [it["pos"]], {"fault": it["meta"].get("fault")})], 24, "final")
+                if again and "fatal" not in again[0] and again[0]["spec"]:
+                    it = again[0]
+                else:
+                    small = it["data"]
+            rep = item_replay(it)
+            ctx.violation("book probe violates the specification: %s" % it["spec"],
+                          {"failing_input": rep, "count": len(spec_fail), "broken_proof": info if proof_broken else None},
+                          key=("hashkey;fen:%s" % it["pos"]["fen"]) if it["meta"].get("fault") == "hashkey" else
+                          "file:%s;fen:%s" % (small.hex()[:4000] if small is not None else "missing", it["pos"]["fen"] if it.get("pos") else "-"))
             return
         if not proof_broken and not diffs:
             return
@@ -837,9 +881,11 @@ def run(ctx):
         if diffs:
             it = diffs[0]
             if ml and it.get("pos") is not None and it.get("data") is not None and len(it["data"]) <= 400000:
-                it = dict(it)
-                it["original_len"] = len(it["data"])
-                it["data"] = shrink_file(cpp, ml, tmpdir, it["data"], it["pos"], 8, 1)
+                small = shrink_file(cpp, ml, tmpdir, it["data"], it["pos"], 8, 1)
+                again = correspond_chunk(1, cpp, ml, tmpdir, [(small, [it["pos"]], {"fault": it["meta"].get("fault")})], 8, "final")
+                if again and "fatal" not in again[0] and again[0]["diff"]:
+                    again[0]["original_len"] = len(it["data"])
+                    it = again[0]
             replay["disagreement"] = item_replay(it)
             replay["disagreement"]["count"] = len(diffs)
             first = [it] + diffs[1:40]
@@ -862,6 +908,8 @@ def run(ctx):
 def replay(ctx, body):
     r = body.get("replay", {})
     it = r.get("failing_input") or r.get("disagreement") or r
+    if not isinstance(it, dict):
+        it = r
     cpp = cbuild.build_harness("book_harness")
     tmpdir = tempfile.mkdtemp(prefix="c18-replay-", dir="/tmp")
     try:
@@ -879,8 +927,18 @@ def replay(ctx, body):
         rc, lines, err = run_harness(cpp, "SEED 1\nFILE %s\nFEN %s\nPROBE 8 ! 5\n" % (path, fen), timeout=120)
         print("fen:", fen)
         print("book file:", path, "(missing)" if not os.path.exists(path) else "%d bytes" % os.path.getsize(path))
+        legal = set()
         for l in lines:
             print("implementation:", l[:2000])
+            if l.startswith("P "):
+                pp = parse_P(l)
+                legal = set(pp["legal"]) if pp else set()
+            elif l.startswith("R "):
+                R = parse_R(l)
+                for r_, m, _ in R.get("calls", []):
+                    print("  getBookMove ->", m, "(empty move)" if m == "0.0.0" else "LEGAL" if m in legal else "*** NOT LEGAL ***")
+            else:
+                print("  *** probe did not return normally ***")
         if err.strip():
             print("stderr:", err.strip()[:1000])
     finally:
